@@ -198,6 +198,10 @@ def canon_keep(repo: Repo, ci, fn, keep, subst=False):
         if subst == "bool":
             from ..canon import bool_temps_substituted
             v = bool_temps_substituted(v)
+        elif subst == "attr":
+            # locals that merely name an attribute (`names = self._non_default_args`) are read through; every other temporary stays
+            from ..canon import substituted, set_parents
+            v = set_parents(substituted(v, only=lambda rhs: isinstance(rhs, ast.Attribute) and path_of(rhs) is not None))
         elif subst:
             v = _fix(v)
         v._rel = ci.module.rel if ci is not None else None
@@ -595,6 +599,43 @@ def module_literals(repo: Repo, rel, fn=None):
                 and cnt.get(st.targets[0].id) == 1 and (st.value.value is None or isinstance(st.value.value, (int, float, str, bool))):
             val[st.targets[0].id] = st.value.value
     return val
+
+
+def kw_sorted(e):
+    """copy of an expression in which the keywords of every call are sorted by name, `**mapping` last, when their values are plain names / attribute reads /
+    literals (evaluation order cannot matter then): `f(**kw, e=1)` and `f(e=1, **kw)` are the same call"""
+    if e is None:
+        return None
+
+    class T(ast.NodeTransformer):
+        def visit_Call(self, c):
+            self.generic_visit(c)
+            if all(isinstance(k.value, (ast.Name, ast.Attribute, ast.Constant)) for k in c.keywords):
+                c.keywords = sorted(c.keywords, key=lambda k: (k.arg is None, k.arg or ""))
+            return c
+    return T().visit(clone_(e))
+
+
+def default_literal(repo: Repo, ci, fn, node):
+    """the literal a parameter default denotes: a literal, or a name bound once to a literal in the body of the defining class (defaults are evaluated in
+    the class body) or at module level; None when it is anything else"""
+    if isinstance(node, ast.Constant):
+        return node.value
+    if isinstance(node, ast.UnaryOp) and isinstance(node.op, ast.USub) and isinstance(node.operand, ast.Constant) and isinstance(node.operand.value, (int, float)):
+        return -node.operand.value
+    if not isinstance(node, ast.Name):
+        return None
+    owner = next((c for c in ([ci] + [c for c in ci.mro() if c is not ci]) if any(x is fn for x in ast.walk(c.node))), None) if ci is not None else None
+    if owner is not None:
+        binds = [st for st in owner.node.body if any(isinstance(x, ast.Name) and isinstance(x.ctx, ast.Store) and x.id == node.id for x in ast.walk(st))
+                 and not isinstance(st, (ast.FunctionDef, ast.ClassDef))]
+        if binds:
+            st = binds[0]
+            if len(binds) == 1 and isinstance(st, ast.Assign) and len(st.targets) == 1 and isinstance(st.targets[0], ast.Name) and isinstance(st.value, ast.Constant):
+                return st.value.value
+            return None
+    rel = getattr(fn, "_rel", None) or (owner.module.rel if owner is not None else None)
+    return module_literals(repo, rel).get(node.id)
 
 
 def _is_literal(e) -> bool:
